@@ -167,7 +167,15 @@ func genC17(t *rapid.T) *C17Case {
 			d.Msg = rapid.SampledFrom(c17Msgs).Draw(t, "dmsg")
 		}
 		if strings.HasPrefix(d.CtlOpt, "ruleRemoveTarget") {
-			d.Targets = genTargets(true)[:1]
+			// one ctl action per target: several removals on the same rule accumulate
+			d.Targets = genTargets(true)
+			if len(d.Targets) == 2 && rapid.Bool().Draw(t, "samecoll") {
+				// both on the same collection, so that the two removals differ only in their (regex) key
+				d.Targets[1].Var = d.Targets[0].Var
+				if d.Targets[0].Rx && rapid.Bool().Draw(t, "bothrx") {
+					d.Targets[1].Rx, d.Targets[1].Key = true, rapid.SampledFrom([]string{"^a", "b$", "^c", "^x"}).Draw(t, "urx2")
+				}
+			}
 		}
 	}
 	c.Req = Req{Method: "GET", Path: "/p", Headers: []KV{{"h1", rapid.SampledFrom([]string{"v1", "x", "a1"}).Draw(t, "h1")}, {"H2", rapid.SampledFrom([]string{"v", "1", "b"}).Draw(t, "h2")}}}
@@ -355,17 +363,20 @@ func (c *C17Case) ctlValue() string {
 	default:
 		v = d.Msg
 	}
-	if len(d.Targets) > 0 {
-		tg := d.Targets[0]
-		tg.Neg = false
-		v += ";" + tg.String()
-	}
 	return v
 }
 
 func (c *C17Case) ctlRule() *Rule {
 	d := c.Dir
-	r := &Rule{ID: 899, Phase: d.CtlPhase, Disr: "pass", Acts: []string{"ctl:" + d.CtlOpt + "=" + c.ctlValue(), "setvar:tx.ctl=+1"}}
+	r := &Rule{ID: 899, Phase: d.CtlPhase, Disr: "pass"}
+	if len(d.Targets) == 0 {
+		r.Acts = append(r.Acts, "ctl:"+d.CtlOpt+"="+c.ctlValue())
+	}
+	for _, tg := range d.Targets {
+		tg.Neg = false
+		r.Acts = append(r.Acts, "ctl:"+d.CtlOpt+"="+c.ctlValue()+";"+tg.String())
+	}
+	r.Acts = append(r.Acts, "setvar:tx.ctl=+1")
 	if d.CtlCond == 0 {
 		r.SecAction = true
 	} else {
